@@ -74,6 +74,7 @@ func newExpoHistogramDataPoint[N int64 | float64](
 
 // record adds a new measurement to the histogram. It will rescale the buckets if needed.
 func (p *expoHistogramDataPoint[N]) record(v N) {
+	count, minV, maxV, sum := p.count, p.min, p.max, p.sum
 	p.count++
 
 	if !p.noMinMax {
@@ -109,6 +110,8 @@ func (p *expoHistogramDataPoint[N]) record(v N) {
 			// With a scale of -10 there is only two buckets for the whole range of float64 values.
 			// This can only happen if there is a max size of 1.
 			otel.Handle(errors.New("exponential histogram scale underflow"))
+			// The measurement cannot be bucketed: do not leave it in count, sum, min and max.
+			p.count, p.min, p.max, p.sum = count, minV, maxV, sum
 			return
 		}
 		// Downscale
